@@ -204,15 +204,17 @@ def wrap(stmt_text: str, where: int) -> str:
 class Case:
     """one metamorphic pair: expanding program, manual program (or why there is none)"""
 
-    def __init__(self, kind, expanding, manual, header=None, note="", tag="", envs=None, macros=None, before=None):
+    def __init__(self, kind, expanding, manual, header=None, note="", tag="", envs=None, macros=None, before=None, norm=None):
         self.kind, self.expanding, self.manual, self.header, self.note, self.tag = kind, expanding, manual, header, note, tag
+        self.norm = norm            # "switch": Hardcode.switch names its private folder `hardcode_switch`, a written-out switch `switch_case`
+        self.alts = []              # smaller cases (one statement each) tried when this packed case fails, to report a minimal pair
         self.envs = envs            # --env names of the compilation (None = none)
         self.macros = macros        # the header's number macros as the harness knows them ([(name, digits)]); None = take the recorded ones
         self.before = before or []  # compilations (dicts src/header/envs) done IN THE SAME PROCESS right before this case
 
     def to_json(self):
         return dict(kind=self.kind, expanding=self.expanding, manual=self.manual, header=self.header, note=self.note, tag=self.tag,
-                    envs=self.envs, macros=self.macros, before=self.before)
+                    envs=self.envs, macros=self.macros, before=self.before, norm=self.norm)
 
 
 def inner(body: str) -> str:
@@ -737,6 +739,312 @@ def gen_lazy_cross(rng, tier):
     return cases
 
 
+# ------------------------------------------------------------------ strengthening round 3: what stands around a parameter occurrence
+
+# classes of text right BEFORE / right AFTER an occurrence `$<param>`: label -> (text, site kinds where the class can be written)
+#   site kinds: "str" inside a string literal, "raw" a word of a vanilla command, "var" tail of a variable name,
+#   "sel" a value inside a selector bracket, "calc" inside Hardcode.calc( ), "head"/"tail" first / last characters of a @lazy body
+# special texts: "<Q>" another bound parameter, "<P>" the same parameter again, "<LONG>" the rest of a LONGER parameter name that
+# shares the prefix, "<ALMOST>" a proper prefix of that rest, "<BEYOND>" that rest plus one more letter
+_ID = {"str", "raw", "var", "sel"}
+CTX_PREC = {
+    "letter": ("x", _ID), "upper": ("Q", _ID), "digit": ("7", _ID | {"calc"}), "underscore": ("_", _ID),
+    "dollar": ("$", {"str", "raw"}), "blank": (" ", {"str", "calc"}), "quote": ("", {"str"}), "squote": ("'", {"str"}),
+    "square": ("[", {"str"}), "round": ("(", {"str", "calc"}), "curly": ("{", {"str"}),
+    "equals": ("=", {"str"}), "plus": ("+", {"str", "raw", "calc"}), "minus": ("-", {"str", "raw", "sel", "calc"}),
+    "star": ("*", {"str", "calc"}), "slash": ("/", {"str"}), "percent": ("%", {"str"}), "less": ("<", {"str"}), "bang": ("!", {"str"}),
+    "dot": (".", {"str", "raw", "sel", "var"}), "colon": (":", {"str", "raw"}), "comma": (",", {"str"}), "semicolon": (";", {"str"}),
+    "at": ("@", {"str"}), "hash": ("#", {"str"}), "tilde": ("~", {"str"}), "backslash-n": ("\\n", {"str"}),
+    "other-param": ("<Q>", {"str", "raw", "calc"}), "same-param": ("<P>", {"str", "raw", "calc"}), "unbound": ("$zz", {"str", "raw"}),
+    "non-ascii": ("é", {"str"}), "start-of-text": ("", {"head"}), "none": ("", {"raw", "var", "sel", "calc"}),
+}
+CTX_FOLL = {
+    "letter": ("b", _ID), "upper": ("B", _ID), "digit": ("0", _ID | {"calc"}), "underscore": ("_", _ID | {"head"}),
+    "dollar": ("$", {"str", "raw"}), "blank": (" ", {"str", "calc", "head"}), "quote": ("", {"str"}), "squote": ("'", {"str"}),
+    "square": ("]", {"str"}), "round": (")", {"str"}), "curly": ("}", {"str"}),
+    "equals": ("=", {"str"}), "plus": ("+1", {"str", "calc"}), "minus": ("-", {"str", "raw", "sel"}), "star": ("*2", {"str", "calc"}),
+    "slash": ("/", {"str"}), "percent": ("%", {"str"}), "greater": (">", {"str"}), "bang": ("!", {"str"}),
+    "dot": (".", {"str", "raw", "sel", "var"}), "colon": (":", {"str", "raw"}), "comma": (",", {"str"}), "semicolon": (";", {"str"}),
+    "newline": ("\n+1", {"calc"}), "backslash-n": ("\\n", {"str"}),
+    "other-param": ("<Q>", {"str", "raw", "calc"}), "same-param": ("<P>", {"str", "raw", "calc"}), "unbound": ("$zz", {"str", "raw"}),
+    "longer-param": ("<LONG>", _ID | {"head"}), "almost-longer-param": ("<ALMOST>", _ID), "beyond-longer-param": ("<BEYOND>", _ID),
+    "non-ascii": ("é", {"str"}), "end-of-text": ("", {"tail"}), "none": ("", {"raw", "var", "sel", "calc", "head"}),
+}
+# parameter names: prefix-related pairs / triples, case-related, with digits and underscores
+CTX_NAME_SETS = [["i", "item"], ["item", "i"], ["a", "ab", "abc"], ["n", "na", "name"], ["name", "n"], ["p", "q"], ["x", "x1"],
+                 ["v", "v_"], ["i", "I"], ["_", "_x"], ["k", "key"], ["color", "c"], ["idx", "id"]]
+CTX_SINGLE = ["i", "n", "idx", "_", "name", "color", "x1", "I"]
+CTX_EXPANSIONS = ["repeat", "switch", "list", "lists", "lazy"]
+
+
+def ctx_statement(site: str, occ: str, prec_label: str, foll_label: str) -> str:
+    """one complete statement whose only parameter occurrences are those of `occ`"""
+    if site == "str":
+        lead = "" if prec_label == "quote" else "w "
+        trail = "" if foll_label == "quote" else " z"
+        return f'say "{lead}{occ}{trail}";'
+    if site == "raw":
+        return f"tag @s add {occ};"
+    if site == "var":
+        return f"$v{occ} += 1;"
+    if site == "sel":
+        return f'execute as @a[tag={occ}] run say "hi";'
+    if site == "calc":
+        return f"$k = Hardcode.calc({occ});"
+    raise ValueError(site)
+
+
+def ctx_occurrence(names, focus, prec, foll):
+    """text `<prec>$focus<foll>` with the placeholders resolved; None if the class needs a parameter this name set does not have"""
+    others = [n for n in names if n != focus]
+    longer = sorted((n for n in others if n.startswith(focus) and len(n) > len(focus)), key=len)
+
+    def res(t):
+        if t == "<Q>":
+            return "$" + others[0] if others else None
+        if t == "<P>":
+            return "$" + focus
+        if t == "<LONG>":
+            return longer[0][len(focus):] if longer else None
+        if t == "<ALMOST>":
+            return longer[-1][len(focus):-1] if longer and len(longer[-1]) - len(focus) >= 2 else None
+        if t == "<BEYOND>":
+            return longer[0][len(focus):] + "s" if longer else None
+        return t
+    a, b = res(prec), res(foll)
+    if a is None or b is None:
+        return None
+    return a + "$" + focus + b
+
+
+def ctx_build(expansion, names, stmts, values, where, shape="mid", style=0):
+    """(expanding program, manual program or None, note) for one expansion kind over a body made of `stmts`;
+    values: repeat/switch -> (start, n); list -> strings; lists -> lists of strings; lazy -> argument texts"""
+    body = "{ " + " ".join(stmts) + " }"
+    norm = None
+    if expansion == "repeat":
+        a, n = values
+        call = f"Hardcode.repeat(({names[0]})=>{body}, start={a}, stop={a + n});"
+        man, note = manual_of(lambda: "".join(inner(spec_expand(body, [(names[0], str(i))], [])) for i in range(a, a + n)))
+        exp, manp = wrap(call, where), None if man is None else wrap(man, where)
+    elif expansion == "switch":
+        a, n = values
+        a = max(a, 0)
+        begin = "" if a == 1 else f", begin_at={a}"
+        call = f"Hardcode.switch($s, ({names[0]})=>{body}, count={a + n - 1}{begin});"
+        man, note = manual_of(lambda: "switch ($s) { " + " ".join(
+            f"case {i}:" + inner(spec_expand(body, [(names[0], str(i))], [])) for i in range(a, a + n)) + " }")
+        exp, manp, norm = wrap(call, where), None if man is None else wrap(man, where), "switch"
+    elif expansion == "list":
+        lst = "[" + ", ".join('"' + x + '"' for x in values) + "]"
+        call = f"Hardcode.repeatList(({names[0]}, {names[1]})=>{body}, {lst});"
+        man, note = manual_of(lambda: "".join(inner(spec_expand(body, [(names[0], str(j)), (names[1], x)], [])) for j, x in enumerate(values)))
+        exp, manp = wrap(call, where), None if man is None else wrap(man, where)
+    elif expansion == "lists":
+        lst = "[" + ", ".join("[" + ", ".join('"' + x + '"' for x in l) + "]" for l in values) + "]"
+        call = f"Hardcode.repeatLists(({', '.join(names)})=>{body}, {lst});"
+        rows = len(values[0])
+        man, note = manual_of(lambda: "".join(
+            inner(spec_expand(body, [(names[0], str(r))] + [(nm, l[r]) for nm, l in zip(names[1:], values)], [])) for r in range(rows)))
+        exp, manp = wrap(call, where), None if man is None else wrap(man, where)
+    else:
+        joined = " ".join(stmts)
+        content = {"mid": " " + joined + " ", "head": joined + " ", "tail": " " + joined}[shape]
+        defn = f"@lazy function lz({', '.join(names)}) {{{content}}}\n"
+        binds = list(zip(names, values))
+        if style == 0 or len(names) == 1:
+            call_args = ", ".join(values)
+        elif style == 1:
+            call_args = ", ".join(f"{n}={v}" for n, v in reversed(binds))
+        else:
+            call_args = ", ".join([values[0]] + [f"{n}={v}" for n, v in reversed(binds[1:])])
+        man, note = manual_of(lambda: spec_expand(content, binds, []))
+        w = where % 2
+        exp, manp = defn + wrap(f"lz({call_args});", w), None if man is None else defn + wrap(man, w)
+    return exp, manp, note, norm
+
+
+def ctx_values(expansion, names, sites, rng):
+    """argument values of the expansion; integer-valued when a Hardcode.calc site is present, identifier-like for var / sel sites"""
+    words = ["k", "w7", "a_b", "7", "12", "Zed"] + ([] if sites & {"var", "sel", "calc"} else ["$j", "@s", "a b", "$item", "$i", "x-1", "", "$"])
+    ints = ["5", "0", "12", "3"]
+    if expansion in ("repeat", "switch"):
+        return (rng.choice([0, 1, 2, 9, 10, 99]), 2)
+    if expansion == "list":
+        return [rng.choice(ints if "calc" in sites else words) for _ in range(2)]
+    if expansion == "lists":
+        return [[rng.choice(ints if "calc" in sites else words) for _ in range(2)] for _ in names[1:]]
+    lazy_words = ["5", "foo", "w_1", "12", "Zed"] + ([] if sites & {"var", "sel", "calc"} else ["$w", "@s", "$b", "$a", "-3", "obj:@s"])
+    return [rng.choice(ints + ["-3"] if "calc" in sites else lazy_words) for _ in names]
+
+
+def gen_context(rng, tier):
+    """Bodies from a grammar of what PRECEDES and FOLLOWS a parameter occurrence, for every expansion kind (Hardcode.repeat / switch /
+    repeatList / repeatLists / @lazy).  The specification (spec_subst: simultaneous, longest name first, a name is NOT delimited by
+    what follows it) says what each occurrence becomes.  Quick: every follower class and every preceding class at least 3 times per
+    expansion kind, packed three statements to a body (single-statement variants are kept in case.alts to report a minimal pair);
+    thorough: every (preceding, following) pair per expansion kind."""
+    cases, reach = [], {}
+    per_foll = 3 if tier == "quick" else len(CTX_PREC)
+    prec_labels, foll_labels = list(CTX_PREC), list(CTX_FOLL)
+    for ei, expansion in enumerate(CTX_EXPANSIONS):
+        items = []         # (names, focus, site, prec label, foll label, occurrence)
+        for fi, fl in enumerate(foll_labels):
+            got, tries = 0, 0
+            while got < per_foll and tries < 4 * len(prec_labels):
+                pl = prec_labels[(fi * per_foll + tries + 5 * ei) % len(prec_labels)] if tier == "quick" else prec_labels[tries % len(prec_labels)]
+                tries += 1
+                sites = sorted((CTX_PREC[pl][1] & CTX_FOLL[fl][1]) - ({"head", "tail"} if expansion != "lazy" else set()))
+                if pl == "start-of-text":
+                    sites = [x for x in sites if x == "head"]
+                elif fl == "end-of-text":
+                    sites = ["tail"] if expansion == "lazy" and "raw" in CTX_PREC[pl][1] else []
+                else:
+                    sites = [x for x in sites if x not in ("head", "tail")]
+                if not sites:
+                    continue
+                site = sites[(got + fi) % len(sites)]
+                if expansion in ("repeat", "switch"):
+                    names = [rng.choice(CTX_SINGLE)]
+                elif expansion == "list":
+                    names = list(rng.choice([ns for ns in CTX_NAME_SETS if len(ns) == 2]))
+                else:
+                    names = list(rng.choice(CTX_NAME_SETS))
+                needs_long = CTX_FOLL[fl][0] in ("<LONG>", "<ALMOST>", "<BEYOND>")
+                focus_pool = [n for n in names if (not needs_long) or any(o != n and o.startswith(n) for o in names)]
+                if site == "calc" and expansion in ("list", "lists"):
+                    focus_pool = [n for n in focus_pool if n == names[0]] or focus_pool   # the index parameter is the integer one
+                if not focus_pool:
+                    if expansion in ("repeat", "switch"):
+                        continue            # one parameter: no longer parameter exists
+                    names = list(rng.choice([ns for ns in CTX_NAME_SETS if any(a != b and b.startswith(a) for a in ns for b in ns)
+                                             and (expansion != "list" or len(ns) == 2)]))
+                    focus_pool = [n for n in names if any(o != n and o.startswith(n) for o in names)]
+                focus = rng.choice(focus_pool)
+                occ = ctx_occurrence(names, focus, CTX_PREC[pl][0], CTX_FOLL[fl][0])
+                if occ is None:
+                    continue
+                got += 1
+                items.append((names, focus, site, pl, fl, occ))
+        # odd occurrences: the bare name, the name in the other case, a lone `$`, `$$`
+        for names in ([[n] for n in CTX_SINGLE[:4]] if expansion in ("repeat", "switch") else
+                      [ns for ns in CTX_NAME_SETS if expansion != "list" or len(ns) == 2][:4]):
+            f0 = names[0]
+            odd = f"{f0} ${f0.swapcase()} $ $$ ${f0}$ {f0}${f0} $ {f0}"
+            items.append((list(names), f0, "str", "odd", "odd", odd))
+        # pack: statements of one body share the parameter names, so group the items by name set
+        groups = {}
+        for it in items:
+            groups.setdefault(tuple(it[0]), []).append(it)
+        k = 0
+        for names, its in groups.items():
+            specials = [it for it in its if it[2] in ("head", "tail")]
+            normal = [it for it in its if it[2] not in ("head", "tail")]
+            size = 3 if tier == "quick" else 1
+            packs = [normal[j:j + size] for j in range(0, len(normal), size)] + [[it] for it in specials]
+            for pack in packs:
+                sites = {it[2] for it in pack}
+                shape = "head" if "head" in sites else "tail" if "tail" in sites else "mid"
+                vals = ctx_values(expansion, list(names), {("raw" if x in ("head", "tail") else x) for x in sites}
+                                  | ({"var"} if shape == "head" else set()), rng)
+                if shape == "head":
+                    vals = ["$w" if n == pack[0][1] else v for n, v in zip(names, vals)] if expansion == "lazy" else vals
+
+                def stmt(it):
+                    if it[2] == "head":
+                        return it[5] + " += 1;"
+                    if it[2] == "tail":
+                        return 'say "t"; tag @s add ' + it[5]
+                    return ctx_statement(it[2], it[5], it[3], it[4])
+                stmts = [stmt(it) for it in pack]
+                style = k % 3
+                exp, manp, note, norm = ctx_build(expansion, list(names), stmts, vals, k % 3, shape, style)
+                tag = f"ctx-{expansion}[" + " | ".join(f"{it[3]}>{it[5]}<{it[4]} @{it[2]}" for it in pack) + "]"
+                c = Case("ctx", exp, manp, note=note, tag=tag, norm=norm)
+                if len(pack) > 1:
+                    for it, st in zip(pack, stmts):
+                        e1, m1, n1, _ = ctx_build(expansion, list(names), [st], vals, k % 3, shape, style)
+                        c.alts.append(Case("ctx", e1, m1, note=n1, tag=f"ctx-{expansion}[{it[3]}>{it[5]}<{it[4]} @{it[2]}]", norm=norm))
+                cases.append(c)
+                k += 1
+                for it in pack:
+                    reach.setdefault(expansion, {}).setdefault("foll:" + it[4], 0)
+                    reach[expansion]["foll:" + it[4]] += 1
+                    reach[expansion].setdefault("prec:" + it[3], 0)
+                    reach[expansion]["prec:" + it[3]] += 1
+    return cases, reach
+
+
+def gen_fastpaths(rng, tier):
+    """Expansions whose substitution has nothing to do (no parameter, parameter not mentioned, no `$` at all, no iteration / one
+    iteration) but whose Hardcode.calc's must still be evaluated — also inside the private functions the body allocates."""
+    out = []
+    hdr = Hdr(("define", "N", 5), ("define", "SIZE", 16), ("env", "DEBUG"), envs=["DEBUG"])
+    bodies = [
+        ("string", 'tellraw @a "area=Hardcode.calc(16*16)";', False),
+        ("assign", "$a = Hardcode.calc(3*4+1);", False),
+        ("two", 'say "p Hardcode.calc(2**5) q Hardcode.calc(7\\2)"; $b = Hardcode.calc(0-9);', False),
+        ("cond", 'if ($x == Hardcode.calc(2+2)) { say "four"; say "Hardcode.calc(4*4)"; } else { say "not Hardcode.calc(1+1)"; }', False),
+        ("private-if", 'if ($x == 1) { say "in Hardcode.calc(6*7)"; say "b"; }', False),
+        ("private-while", 'while ($w < Hardcode.calc(2*5)) { $w += Hardcode.calc(1+1); say "w"; }', False),
+        ("private-execute", 'execute as @a at @s run { say "e Hardcode.calc(9-1)"; say "f"; }', False),
+        ("private-schedule", 'schedule 1t { say "s Hardcode.calc(3*3)"; say "t"; }', False),
+        ("switch", 'switch ($s) { case 1: say "one Hardcode.calc(1*1)"; case 2: say "two Hardcode.calc(1+1)"; say "x"; }', False),
+        ("macro", 'say "m Hardcode.calc(N*SIZE+DEBUG)"; $m = Hardcode.calc(SIZE\\N);', True),
+        ("macro-private", 'if ($x == N) { say "n Hardcode.calc(N+N)"; say "o"; }', True),
+        ("no-calc", 'say "plain"; if ($x == 2) { say "u"; say "v"; }', False),
+    ]
+    k = 0
+
+    def emit(tag, exp, man_fn, use_hdr, norm=None):
+        nonlocal k
+        man, note = manual_of(man_fn)
+        out.append(Case("fastpath", exp(None), None if man is None else exp(man), header=hdr.text if use_hdr else None,
+                        envs=hdr.envs if use_hdr else None, macros=hdr.macros if use_hdr else [], note=note, tag="fastpath-" + tag, norm=norm))
+        k += 1
+    for name, st, use_hdr in bodies:
+        mac = hdr.macros if use_hdr else []
+        content = " " + st + " "
+        # @lazy, zero parameters: plain call, twice, under execute, class member
+        d0 = "@lazy function z() {" + content + "}\n"
+        for where in (0, 1, 2):
+            emit(f"lazy0-{name}-{where}", lambda m, d0=d0, where=where: d0 + wrap("z();" if m is None else m, where),
+                 lambda: spec_expand(content, [], mac), use_hdr)
+        emit(f"lazy0-twice-{name}", lambda m, d0=d0: d0 + wrap('z(); say "mid"; z();' if m is None else m, 0),
+             lambda: spec_expand(content, [], mac) + ' say "mid"; ' + spec_expand(content, [], mac), use_hdr)
+        if name in ("string", "assign", "macro"):
+            one = content if name != "macro" else ' say "m Hardcode.calc(N*SIZE+DEBUG)"; '
+            dx = "@lazy function z() {" + one + "}\n"
+            emit(f"lazy0-execute-{name}", lambda m, dx=dx: dx + wrap("execute as @a at @s run z();" if m is None else m, 0),
+                 lambda: "execute as @a at @s run" + spec_expand(one, [], mac), use_hdr)
+        dk = "class k { @lazy function z() {" + content + "} }\n"
+        emit(f"lazy0-class-{name}", lambda m, dk=dk: dk + wrap("k.z();" if m is None else m, 0), lambda: spec_expand(content, [], mac), use_hdr)
+        # @lazy with parameters the body does not mention / mentions only one of
+        d1 = "@lazy function z(pa, pb) {" + content + "}\n"
+        emit(f"lazy-unused-{name}", lambda m, d1=d1: d1 + wrap("z(1, pb=2);" if m is None else m, 0),
+             lambda: spec_expand(content, [("pa", "1"), ("pb", "2")], mac), use_hdr)
+        c2 = content + 'say "only $pb"; '
+        d2 = "@lazy function z(pa, pb) {" + c2 + "}\n"
+        emit(f"lazy-one-used-{name}", lambda m, d2=d2: d2 + wrap("z(1, 2);" if m is None else m, 1),
+             lambda: spec_expand(c2, [("pa", "1"), ("pb", "2")], mac), use_hdr)
+        # Hardcode.* whose body does not mention the parameter; one iteration; no iteration
+        body = "{" + content + "}"
+        for a, b in ((0, 2), (5, 6), (3, 3)):
+            emit(f"repeat-unused-{name}-{a}-{b}", lambda m, a=a, b=b: wrap(f"Hardcode.repeat((i)=>{body}, start={a}, stop={b});" if m is None else m, k % 3),
+                 lambda: "".join(inner(spec_expand(body, [("i", str(i))], mac)) for i in range(a, b)), use_hdr)
+        emit(f"list-unused-{name}", lambda m: wrap(f'Hardcode.repeatList((i0, s0)=>{body}, ["x", "y"]);' if m is None else m, 0),
+             lambda: "".join(inner(spec_expand(body, [("i0", str(j)), ("s0", x)], mac)) for j, x in enumerate(["x", "y"])), use_hdr)
+        emit(f"list-empty-{name}", lambda m: wrap(f'Hardcode.repeatList((i0, s0)=>{body}, []); say "after";' if m is None else m, 0),
+             lambda: ' say "after";', use_hdr)
+        emit(f"lists-unused-{name}", lambda m: wrap(f'Hardcode.repeatLists((i0, s0, t0)=>{body}, [["x", "y"], ["u", "v"]]);' if m is None else m, 0),
+             lambda: "".join(inner(spec_expand(body, [("i0", str(j))], mac)) for j in range(2)), use_hdr)
+        if name != "switch":
+            emit(f"switch-unused-{name}", lambda m: wrap(f"Hardcode.switch($q, (i)=>{body}, count=2);" if m is None else m, 0),
+                 lambda: "switch ($q) { " + " ".join(f"case {i}:" + inner(spec_expand(body, [("i", str(i))], mac)) for i in (1, 2)) + " }",
+                 use_hdr, norm="switch")
+    return out
+
+
 # ------------------------------------------------------------------ running, Coq terms
 
 def run_groups(groups: list[list[dict]], chunk: int = 150) -> list[list[dict]]:
@@ -854,9 +1162,12 @@ def coq_case(rec: dict, mode: str, macros=None) -> str | None:
             f"{coq_list(coq_str(t) for t in rec['texts'])} {coq_rerr(rec['err'])}")
 
 
-def fkey(res: dict):
+def fkey(res: dict, norm=None):
     if res["ok"]:
-        return ("ok", tuple(sorted(res["files"].items())))
+        files = res["files"]
+        if norm == "switch":
+            files = {k.replace("/hardcode_switch/", "/switch_case/"): v.replace("/hardcode_switch/", "/switch_case/") for k, v in files.items()}
+        return ("ok", tuple(sorted(files.items())))
     return ("err", res["exc"])
 
 
@@ -871,7 +1182,7 @@ def summary(res):
 def metamorphic_failure(case: Case, rexp: dict, rman: dict | None):
     if case.manual is None:
         return None
-    if rman["ok"] and fkey(rexp) != fkey(rman):
+    if rman["ok"] and fkey(rexp, case.norm) != fkey(rman, case.norm):
         return dict(what="the expanding program does not compile to the output of its manual expansion",
                     expected=summary(rman), actual=summary(rexp))
     if not rman["ok"] and rexp["ok"]:
@@ -967,6 +1278,8 @@ def main(tier: str) -> int:
     rng = ck.rng
     cases = (gen_nested(rng, tier) + gen_calc(rng, tier) + gen_repeat(rng, tier) + gen_lists(rng, tier) + gen_lazy(rng, tier)
              + gen_lazy_cross(rng, tier) + gen_lazy_contexts(rng, tier))
+    ctx_cases, ctx_reach = gen_context(rng, tier)
+    cases += ctx_cases + gen_fastpaths(rng, tier)
     seq_groups = gen_sequences(rng, tier)
     rows = evaluate([[c] for c in cases] + seq_groups)
     mode = os.environ.get("C19_MODEL_MODE", "HRepaired")
@@ -984,10 +1297,16 @@ def main(tier: str) -> int:
         if kf:
             ck.known(kf["id"], kf["what"])
             continue
-        key = (c.kind, f["what"])
+        key = (c.kind, c.tag.split("[")[0] if c.kind == "ctx" else "", f["what"])      # context grammar: one report per expansion kind
         if key in reported:
             continue
         reported.add(key)
+        if c.alts:          # a packed body: report the smallest failing single-statement variant instead
+            for arow in evaluate([[a] for a in c.alts]):
+                af = metamorphic_failure(arow["case"], arow["exp"], arow["man"])
+                if af:
+                    row, c, f = arow, arow["case"], af
+                    break
         localize(row)
         ck.violation(dict(kind="expansion-differs-from-manual", case=c.to_json(), failure=f,
                           records=row["exp"].get("records", [])[:4]))
@@ -1044,6 +1363,11 @@ def main(tier: str) -> int:
         sequence_groups=len(seq_groups), sequence_compilations=sum(len(g) for g in seq_groups),
         headers=len(HDRS), lazy_arg_kinds=len(LAZY_ARG_KINDS), lazy_sites=len(LAZY_SITES),
         lazy_cross="call form (positional / keyword / reordered keywords / mixed) x argument kind x use site, 1-3 parameters per function",
+        context_grammar=dict(preceding_classes=len(CTX_PREC), following_classes=len(CTX_FOLL), expansions=CTX_EXPANSIONS,
+                             occurrences_per_expansion=ctx_reach,
+                             what="occurrences `<preceding>$param<following>` per expansion kind (statements in string / command word / variable name / "
+                                  "selector / Hardcode.calc / first and last characters of a @lazy body); compared with spec_subst + the model"),
+        hardcode_switch="Hardcode.switch is compared with the written-out `switch` (private folder hardcode_switch ~ switch_case) and its texts with the model of Hardcode.repeat over range(begin_at, count+1)",
     ))
     return ck.finish()
 
@@ -1052,7 +1376,7 @@ def replay(path: str) -> int:
     o = json.load(open(path))
     c = o["case"]
     case = Case(c["kind"], c["expanding"], c["manual"], c.get("header"), c.get("note", ""), c.get("tag", ""), envs=c.get("envs"),
-                macros=c.get("macros"), before=c.get("before"))
+                macros=c.get("macros"), before=c.get("before"), norm=c.get("norm"))
     row = evaluate([[case]], replaying=True)[0]
     f = metamorphic_failure(case, row["exp"], row["man"])
     for b in case.before:
